@@ -182,11 +182,11 @@ Proof. intros H1 H2. pose proof (xq_max_lo a b x x H1 H2) as H. rewrite Rmax_lef
 Lemma xq_min_hi_both a b x : R_le_xq x a -> R_le_xq x b -> R_le_xq x (xq_min a b).
 Proof. intros H1 H2. pose proof (xq_min_hi a b x x H1 H2) as H. rewrite Rmin_left in H; [exact H|lra]. Qed.
 
-Lemma b_intersection_sound tol a b c x :
-  in_b a x -> in_b b x -> b_intersection tol a b = Some c -> in_b c x.
+Lemma b_intersection_sound ties tol a b c x :
+  in_b a x -> in_b b x -> b_intersection ties tol a b = Some c -> in_b c x.
 Proof.
   intros [A1 A2] [B1 B2]. unfold b_intersection.
-  destruct (xq_leb (xq_max (lo a) (lo b)) (xq_min (hi a) (hi b))).
+  destruct (if ties then xq_ltb (xq_max (lo a) (lo b)) (xq_min (hi a) (hi b)) else xq_leb (xq_max (lo a) (lo b)) (xq_min (hi a) (hi b))).
   - intros H; inversion H; subst c. split; cbn; [apply xq_max_lo_both|apply xq_min_hi_both]; assumption.
   - destruct (xq_leb _ tol); [|discriminate]. intros H; inversion H; subst c. split; assumption.
 Qed.
